@@ -195,9 +195,40 @@ func ruleC11M2(r *Run, pk *packages.Package) {
 	lits := collectStructLits(pk, want)
 	empty := 0
 	perFn := map[string]int{}
+	_ = perFn
+	// interfaces of package message that the decode direction validates: some converter function returns (I, error)
+	validated := map[*types.TypeName]string{}
+	sc := pk.Types.Scope()
+	for _, nm := range sc.Names() {
+		fo, ok := sc.Lookup(nm).(*types.Func)
+		if !ok {
+			continue
+		}
+		res := fo.Type().(*types.Signature).Results()
+		if res.Len() == 2 && types.Identical(res.At(1).Type(), types.Universe.Lookup("error").Type()) {
+			if n := namedOf(res.At(0).Type()); n != nil && n.Obj().Pkg() != nil && n.Obj().Pkg().Path() == modPath+"/message" {
+				if _, isI := n.Underlying().(*types.Interface); isI {
+					validated[n.Obj()] = nm
+				}
+			}
+		}
+	}
 	for _, sl := range lits {
 		if sl.Empty {
 			empty++
+			// the "nil in ⇒ zero out" idiom is only sound when the zero value is itself acceptable to the decoder
+			if sl.Type.Obj().Pkg().Path() == modPath+"/message" {
+				st := sl.Type.Underlying().(*types.Struct)
+				for i := 0; i < st.NumFields(); i++ {
+					if n := namedOf(st.Field(i).Type()); n != nil {
+						if fnm, isV := validated[n.Obj()]; isV {
+							perFn[sl.Fn.Name.Name+"/zero/"+tname(sl.Type)]++
+							r.Check(fmt.Sprintf("%s zero %s#%d", sl.Fn.Name.Name, tname(sl.Type), perFn[sl.Fn.Name.Name+"/zero/"+tname(sl.Type)]), false, p.pos(sl.Pos), sl.Fn.Name.Name,
+								fmt.Sprintf("the empty literal %s{} leaves %s unset, but the decoder itself (%s) rejects an absent %s: the produced message cannot be encoded and decoded again", tname(sl.Type), st.Field(i).Name(), fnm, n.Obj().Name()))
+						}
+					}
+				}
+			}
 			continue
 		}
 		st := sl.Type.Underlying().(*types.Struct)
